@@ -7,6 +7,7 @@ import (
 	"errors"
 	"fmt"
 	"io"
+	"slices"
 	"strconv"
 	"strings"
 	"time"
@@ -116,6 +117,25 @@ func (p SpendPolicy) Address() Address {
 	}
 	p.EncodeTo(h.E)
 	return Address(h.Sum())
+}
+
+// deepCopy returns a copy of p that does not alias any of its memory.
+func (p SpendPolicy) deepCopy() SpendPolicy {
+	switch t := p.Type.(type) {
+	case PolicyTypeThreshold:
+		t.Of = slices.Clone(t.Of)
+		for i := range t.Of {
+			t.Of[i] = t.Of[i].deepCopy()
+		}
+		p.Type = t
+	case PolicyTypeUnlockConditions:
+		t.PublicKeys = slices.Clone(t.PublicKeys)
+		for i := range t.PublicKeys {
+			t.PublicKeys[i].Key = slices.Clone(t.PublicKeys[i].Key)
+		}
+		p.Type = t
+	}
+	return p
 }
 
 // Verify verifies that p is satisfied by the supplied inputs.
